@@ -131,7 +131,7 @@ PROPS = {
             "explanation": "V-FW verifies the real bodies of State::validate, Machine::validate, Action::validate, Counter::validate, Machine::new and Framework::new against a well-formedness predicate written from the property text: Ok => every target an existing state or pseudo-state [C12.targets], no duplicate targets [C12.dups], every probability not NaN, not <= 0, not > 1 [C12.probs], the f32 running sum not > 1 [C12.sum], every distribution of the action and of both counters accepted by Dist::validate [C12.dists], fractions accepted by (0.0..=1.0).contains, 1..=STATE_MAX states [C12.machine]; for lists, states and machine sets of any size. Dist::validate's body is verified too: Ok => the parameters are accepted by the sampler's constructor, taken in the order Dist::dist_sample passes them, plus the explicit speed bounds, for all 11 families [C12.dist]; Machine::from_str is verified with the external decoders replaced by arbitrary-result stand-ins: whatever they return, an Ok(machine) has passed validate [C12.paths]. Floating point comparisons / additions are uninterpreted functions of their operands there (extraction rules R11-R14); what they mean arithmetically is Kani's part: accepted fractions are real numbers in [0,1] for every f64 [C12.fracs], Framework::new accepts exactly fractions in [0,1] [C12.new], accepted distributions have parameters the sampler's constructor accepts plus the explicit speed bounds for 7 of the 11 families [C12.dist], State::validate checks action and both counters in every shape of the counter pair [C12.parts]. Same judgement on every path: Machine::new is Ok exactly when Machine::validate accepts the assembled machine, Framework::new is Ok exactly when both fractions and every machine are accepted - so a framework built from accepted machines with fractions in [0,1] never fails [C12.same] (stated through the exact acceptance set, an auxiliary obligation [C12.aux_acc]: if the code's judgement changes in a way the property allows, the check reports undecided, not a violation). NOT decided: what rand_distr's constructors accept for poisson / geometric / gamma / beta (Kani cannot execute them; in V-FW they are uninterpreted)."},
     "C13": {"verus": ["vfw"], "kani": ["k_dist_sample", "k_clamp_timeout", "k_clamp_duration", "k_clamp_limit",
                                   "k_counter_value"] + VALID_DIST, "title": "Sampling in range",
-            "explanation": "V-FW, on the real bodies of Dist::validate and Dist::dist_sample with rand_distr replaced by stand-ins whose constructors are functions of their arguments: an accepted distribution satisfies dist_valid [C13.valid], and under dist_valid every constructor unwrap in dist_sample succeeds and rand's gen_range precondition (low < high, finite width) holds - for all 11 families, argument order included [C13.nopanic] (floats as uninterpreted IEEE predicates with the comparison axioms listed in the trusted base). Kani: Dist::sample with the underlying rand_distr sampler over-approximated by 'returns any f64': the result is not NaN, >= 0, <= max when max > 0, and finite, for all 11 families and all start/max including NaN and infinities; the consumers' conversions never panic and clamp to one day. NOT decided: that the rand_distr samplers return promptly (probabilistic termination) - an explicit assumption."},
+            "explanation": "V-FW, on the real bodies of Dist::validate and Dist::dist_sample with rand_distr replaced by stand-ins whose constructors are functions of their arguments: an accepted distribution satisfies dist_valid [C13.valid], and under dist_valid every constructor unwrap in dist_sample succeeds and rand's gen_range precondition (low < high, finite width) holds - for all 11 families, argument order included [C13.nopanic] (floats as uninterpreted IEEE predicates with the comparison axioms listed in the trusted base); and only validated distributions are ever sampled: Framework::new's check of every machine is carried by the framework invariant (opaque fact cfg_valid about the never-changing machine list) to each of the four sampling calls in transition / update_counter / schedule_action, whose leaf contracts require action_valid / counter_valid [C13.validated]. Kani: Dist::sample with the underlying rand_distr sampler over-approximated by 'returns any f64': the result is not NaN, >= 0, <= max when max > 0, and finite, for all 11 families and all start/max including NaN and infinities; the consumers' conversions never panic and clamp to one day. NOT decided: that the rand_distr samplers return promptly (probabilistic termination) - an explicit assumption."},
     "C20": {"verus": [], "kani": ["k_ffi_convert_action", "k_ffi_convert_event", "k_ffi_null_args", "k_ffi_on_events_empty"], "title": "C API",
             "explanation": "convert_action is field-exact for every TriggerAction value (kind, machine, flags, timer, seconds, nanoseconds) and convert_event for all 10 event types and any id (loop-free, full domain); null `this`, null `out` are reported through NullPointer / 0 without dereference; on a real machine-less instance (BOUNDED: 0 machines, batches of 0 or 1 event) maybenot_on_events reports a null event / action / count pointer, returns Ok otherwise and writes the count 0 <= maybenot_num_machines. The zip with the output slice for instances with machines and start/stop ownership are std semantics, assumed."},
 }
